@@ -379,6 +379,39 @@ def r8_5(ctx):
     c04.r4_3(ctx)
 
 
+def r8_10(ctx):
+    """(a) F47: the rendering escapes backslashes only together with other characters; for the `escaped` kind - which is read back with its escape
+    sequences resolved - they must be doubled also when nothing else is escaped (a str::replace of `\\` by `\\\\` on the rendered text, or an
+    escaper that always doubles); (b) the same rendering is used for every kind: for kinds whose reader does NOT resolve escape sequences (glob,
+    regex, no-eol ..) an expression with an unprintable character is written with escape sequences that are then read literally (known finding F48)"""
+    prog = ctx.prog
+    w = None
+    for b in prog.bodies:
+        if b.promoted is None and b.name == "to_expression_string" and "rule::Rule" in b.path and b.kind == "AssocFn":
+            w = b
+    if w is None:
+        raise AnchorError("Rule::to_expression_string not found")
+    o = Origins(w)
+    doubled = False
+    for bb, t in w.calls():
+        if mname(t) in ("str::replace", "String::replace") and len(t["args"]) >= 3:
+            a, b_ = peel(o.operand(t["args"][1])), peel(o.operand(t["args"][2]))
+            frm = a.a.as_char() or a.a.as_str() if a.kind == "const" else None
+            to = const_str_of(prog, w, t["args"][2] and o.operand(t["args"][2]))
+            if frm == "\\" and to == "\\\\":
+                doubled = True
+    ctx.check(doubled, "escaped-kind-backslash", w.where(), "backslashes of an `escaped` expression are doubled also when nothing else is escaped",
+              "the rendering of an `escaped` expectation leaves a lone backslash as it is when nothing else needs escaping: content `a\\b` is written `a\\b (escaped)` and "
+              "read back as `a<0x08>b`")
+    # (b) one rendering for all kinds
+    ep = [(bb, t) for bb, t in w.calls() if mname(t) == "Escaper::escaped_printable"]
+    raw = [(bb, t) for bb, t in w.calls() if (mname(t) or "").endswith("from_utf8_lossy")]
+    per_kind = len(ep) == 1 and not raw
+    ctx.check(not per_kind, "escapes-only-for-decoding-kinds", w.where(), "kinds that do not resolve escape sequences are rendered without them",
+              "every kind is rendered through Escaper::escaped_printable: `foo<TAB>bar (no-eol)` is written `foo\\tbar (no-eol)`, `foo<ESC>x* (glob)` with `\\x1b` - those kinds "
+              "read the escape sequence as literal text, the rendering does not parse back to an equal expectation")
+
+
 def r8_6(ctx):
     """the canonical rendering decides on ` (escaped)` with Escaper::has_unprintable and renders with Escaper::escaped_printable
     of the same bytes; both must classify characters identically (R11.5) or the rendering re-parses to other contents"""
@@ -393,8 +426,8 @@ def r8_6(ctx):
     o = Origins(w)
     hu = [(bb, t) for bb, t in w.calls() if mname(t) == "Escaper::has_unprintable"]
     ep = [(bb, t) for bb, t in w.calls() if mname(t) == "Escaper::escaped_printable"]
-    same = len(hu) == 1 and len(ep) == 1 and peel(o.operand(hu[0][1]["args"][1])).show() == peel(o.operand(ep[0][1]["args"][1])).show() \
-        and peel(o.operand(hu[0][1]["args"][0])).show() == peel(o.operand(ep[0][1]["args"][0])).show()
+    same = len(hu) >= 1 and len(ep) == 1 and all(peel(o.operand(h[1]["args"][1])).show() == peel(o.operand(ep[0][1]["args"][1])).show()
+                                                 and peel(o.operand(h[1]["args"][0])).show() == peel(o.operand(ep[0][1]["args"][0])).show() for h in hu)
     ctx.check(same, "marker-and-rendering-same-bytes", w.where(), "the ` (escaped)` decision and the rendering look at the same expression bytes with the same escaper")
     c11.r11_5(ctx)
 
@@ -493,3 +526,4 @@ def run(ctx):
     ctx.run_rule("R8.5", "every kind() literal is the first registered name of its maker (canonical rendering re-parses to the same rule) [E-TABLE]", r8_5, floor=10)
     ctx.run_rule("R8.8", "ExpectationMaker::parse passes the line to extract unchanged (no trimming: trailing white space is content and decides what the final group is) [E-FLOW]", r8_8, floor=1)
     ctx.run_rule("R8.9", "writer/reader agree on the separator before the trailing group: reader `\\s(`, writer char::is_whitespace (F35) [E-TABLE]", r8_9, floor=1)
+    ctx.run_rule("R8.10", "rendering per kind: the `escaped` kind always doubles backslashes (F47); kinds that do not resolve escapes are not written with escapes (known finding F48) [E-TABLE, E-SITE]", r8_10, floor=2)
